@@ -55,10 +55,12 @@ ARCHS = [
 ARCH_IX = {a[0]: i for i, a in enumerate(ARCHS)}
 ISA_STEM = {"x86": 100, "aarch64": 101}
 ISA_CONTENT = {"x86": 900, "aarch64": 901}
-NVAR = 4  # content variants per model file: 0 shipped, 1 / 2 latencies +1 / +2, 3 cosmetic comment
+NVAR = 4  # content variants per model file: 0 shipped, 1 instruction latencies +1 (file head unchanged),
+          # 2 header and instruction latencies +2, 3 cosmetic comment at the end
 HOME_LOC = 99
 LAZY_OFF = 1000000
 PERTURB = set("EKCDFSWHR")
+MAX_CONTROL = 40
 
 
 # --------------------------------------------------------------------------- read-only directories
@@ -171,6 +173,10 @@ def variant(text, k):
     def bump(m):
         return m.group(1) + repr(float(m.group(2)) + k)
 
+    if k == 1:
+        # only the second half of the file changes (a key over the file's head would not notice)
+        mid = len(text) // 2
+        return text[:mid] + re.sub(r"(?m)^(\s+latency: )(\d+(?:\.\d+)?)", bump, text[mid:])
     out = re.sub(r"(?m)^(\s+latency: )(\d+(?:\.\d+)?)", bump, text)
 
     def header(m):
@@ -616,6 +622,34 @@ def classify(shared, world, hop, real, toks):
     return None
 
 
+def control_run(shared, arch, hops, hi, tag):
+    """The oracle of the property itself: replay the history up to (not including) operation `hi` in a
+    fresh world, then do the same load in a process whose cache code is disabled."""
+    root = os.path.join(shared.root, "ctl-%s" % tag)
+    shutil.rmtree(root, ignore_errors=True)
+    os.makedirs(root)
+    w = World(shared, root, arch)
+    try:
+        execute(shared, w, [dict(h) for h in hops[:hi]])
+        wk = Worker(w, "control")
+        try:
+            wk.ask({"op": "nocache"})
+            if hops[hi]["t"] == "Z":
+                return wk.ask({"op": "lazy", "arch": arch})
+            return wk.ask({"op": "analyse", "arch": arch, "kernels": w.kernels})
+        finally:
+            wk.kill()
+    finally:
+        w.release()
+        shutil.rmtree(root, ignore_errors=True)
+
+
+def same_obs(a, b):
+    if a.get("ok") and b.get("ok"):
+        return a.get("report") == b.get("report")
+    return (not a.get("ok")) and (not b.get("ok")) and a.get("exc") == b.get("exc")
+
+
 # --------------------------------------------------------------------------- reference runs
 def build_reference(ctx, shared):
     """Cache-less reference report, lazy digest and reference pickle for every content variant."""
@@ -631,7 +665,7 @@ def build_reference(ctx, shared):
         root = os.path.join(ref, "%s_%d" % (arch, cid))
         os.makedirs(root)
         w = World(shared, root, arch)
-        p = os.path.join(w.dirs[0], arch + ".yml")
+        p = os.path.join(w.dirs[1], arch + ".yml")
         with open(p, "wb") as f:
             f.write(shared.text[cid])
         wk = Worker(w, "ref")
@@ -789,7 +823,8 @@ def judge(ctx, shared, results):
         reqs.append("c17run =shipped %s %s" % (esc(files), esc(toks)))
         reqs.append("c17spec %s %s" % (esc(files), esc(toks)))
     replies = ctx.driver.ask(reqs)
-    n_corr = n_spec = 0
+    n_corr = n_spec = n_other = 0
+    pending = []
     for i, (label, arch, hops, obs, files, stem, isa_stem) in enumerate(results):
         w = _Sym(arch)
         mtoks = replies[2 * i].split(" ") if replies[2 * i] else []
@@ -835,15 +870,45 @@ def judge(ctx, shared, results):
                     ctx.correspondence_break("history:" + label, dict(replay, difference=dm))
             ds = classify(shared, w, h, real, st)
             if ds:
-                n_spec += 1
-                key = "cache-load-fails" if "failed" in ds else "cache-report-differs"
-                if n_spec <= 3:
-                    ctx.violation("%s, history %s, operation %d (%s): %s" % (arch, label, hi, h["t"], ds),
-                                  dict(replay, difference=ds), key=key)
+                pending.append((arch, label, hops, hi, h, real, ds, replay))
                 break  # later observations of this history are consequences
         last_pert = "-"
+    # the property's own oracle for every difference from the specification: the same load, same files,
+    # in a process whose cache code is disabled (history prefix replayed in a fresh world)
+    judged = pending[:MAX_CONTROL]
+
+    def ctl(item):
+        k, (arch, label, hops, hi, h, real, ds, replay) = item
+        return control_run(shared, arch, hops, hi, "%d" % k)
+
+    if judged:
+        with concurrent.futures.ThreadPoolExecutor(max_workers=10) as ex:
+            controls = list(ex.map(ctl, list(enumerate(judged))))
+    else:
+        controls = []
+    for (arch, label, hops, hi, h, real, ds, replay), c in zip(judged, controls):
+        replay["control_no_cache"] = _brief(c)
+        if any(not same_obs(r, c) for r in (real.get("race") or [real])):
+            n_spec += 1
+            key = "cache-load-fails" if "failed" in ds else "cache-report-differs"
+            if n_spec <= 3:
+                ctx.violation("%s, history %s, operation %d (%s): %s; the same load with the cache code disabled %s"
+                              % (arch, label, hi, h["t"], ds,
+                                 "succeeds" if c.get("ok") else "fails with %s" % c.get("exc")),
+                              dict(replay, difference=ds), key=key)
+        else:
+            n_other += 1
+            if n_other <= 3:
+                ctx.correspondence_break("not-a-cache-effect:" + label, dict(
+                    replay, difference=ds, note="the cache-less control run in the same world agrees with the "
+                    "observed run: name resolution or the loader differ from the model, the caches are transparent"))
+    if len(pending) > MAX_CONTROL:
+        ctx.correspondence_break("unjudged-differences", "%d further differences from the specification were not "
+                                 "re-run against the cache-less control" % (len(pending) - MAX_CONTROL))
     ctx.count("corr_disagreements", n_corr)
     ctx.count("spec_failures", n_spec)
+    ctx.count("differences_not_caused_by_caches", n_other)
+    ctx.count("control_runs", len(judged))
     return n_corr, n_spec
 
 
@@ -883,7 +948,7 @@ def run(ctx):
 
     thorough = ctx.tier == "thorough"
     more = bool(ctx.broken)
-    n_random = (150 if thorough else 18) * (2 if more else 1)
+    n_random = (240 if thorough else 30) * (3 if more else 2) // 2
     fixed_archs = [a[0] for a in ARCHS] if (thorough or more) else [ARCHS[ctx.seed % len(ARCHS)][0]]
     # the other models get the core of the fixed set through the random histories; the quick tier
     # rotates the model of the fixed set with the seed
